@@ -33,43 +33,54 @@ theorem reach_inv (cfg : Cfg) (s : St) (h : Reach cfg s) : Inv cfg s := by
       | some s2 => simp [h1] at ha; exact ih s2 s1 (step_inv cfg s0 s2 e h0 h1) ha
   exact key evs {} s (inv_init cfg) h
 
-/-- what has become of record `i` of channel `c` of message `m` -/
+/-- what has become of record `i` of channel `c` of message `m`.  The two documented exemptions are *per record*: they apply
+only to a recipient whose bounce paragraph was appended (`noted`) and was in `bounce/<m>` when that file was discarded
+(`droppedRecs`, only for a message from `#@[]`: `C03_dropped_only_doublebounce`) or damaged by a crash (`lostRecs`). -/
 def Fate (ms : MsgSt) (c : Ch) (i : Nat) : Prop :=
-  -- still queued: an unmarked record of an existing channel file, the message still has its info file
-  (∃ rs, ms.chan c = some rs ∧ i < rs.length ∧ (rs.getD i ⟨false, []⟩).done = false ∧ addrs rs = MsgSt.placed ms c ∧ ms.info.isSome = true)
+  -- still queued: an unmarked record of an existing channel file; the message still has its info file and its message file
+  (∃ rs, ms.chan c = some rs ∧ i < rs.length ∧ (rs.getD i ⟨false, []⟩).done = false ∧ addrs rs = MsgSt.placed ms c ∧
+     ms.info.isSome = true ∧ ms.mess = true)
   -- reported delivered (K) by the delivery agent
   ∨ (c, i) ∈ ms.delivered
-  -- named in bounce/<m>, which still exists together with info/<m>: the bounce is still to be sent
-  ∨ ((c, i) ∈ ms.inFile ∧ ms.bounce.isSome = true ∧ ms.info.isSome = true)
-  -- named in a bounce that was successfully queued to the envelope sender
-  ∨ (c, i) ∈ ms.bounced
-  -- the two documented exceptions: a failing double bounce is discarded; the bounce record is not crash-proof
-  ∨ ms.discarded = true ∨ ms.lost = true
+  -- its paragraph is in bounce/<m>, which still exists together with info/<m> and mess/<m>: the bounce is still to be sent
+  ∨ ((c, i) ∈ ms.noted ∧ (c, i) ∈ ms.inFile ∧ (c, i) ∉ ms.lostRecs ∧ ms.bounce.isSome = true ∧ ms.info.isSome = true ∧ ms.mess = true)
+  -- its paragraph was in a bounce file whose injection succeeded (to the envelope sender: `C03_bounce_to_sender`)
+  ∨ ((c, i) ∈ ms.noted ∧ (c, i) ∈ ms.bounced ∧ (c, i) ∉ ms.lostRecs)
+  -- exemption 1: its paragraph was in the bounce file of a `#@[]` message (a failing double bounce) when that was discarded
+  ∨ ((c, i) ∈ ms.noted ∧ (c, i) ∈ ms.droppedRecs)
+  -- exemption 2: its paragraph was in bounce/<m> (never fsynced) when a crash damaged that file
+  ∨ ((c, i) ∈ ms.noted ∧ (c, i) ∈ ms.lostRecs)
 
 theorem fate_of_fin (cfg : Cfg) (ms : MsgSt) (h : MInv cfg ms) (ht : ms.todo = none) (c : Ch) (i : Nat) (hf : (c, i) ∈ ms.fin) :
     Fate ms c i := by
   rcases h.k3 _ hf with hd | hn
   · exact Or.inr (Or.inl hd)
-  · rcases h.k4 _ hn with h1 | h1 | h1 | h1
-    · have hb : ms.bounce ≠ none := fun hb => by have := h.k5 hb; rw [this] at h1; simp at h1
-      have hbs : ms.bounce.isSome = true := by
-        cases hbb : ms.bounce with
-        | none => exact absurd hbb hb
-        | some _ => rfl
-      exact Or.inr (Or.inr (Or.inl ⟨h1, hbs, h.k6 ht (Or.inr (Or.inr hbs))⟩))
-    · exact Or.inr (Or.inr (Or.inr (Or.inl h1)))
-    · exact Or.inr (Or.inr (Or.inr (Or.inr (Or.inl h1))))
-    · exact Or.inr (Or.inr (Or.inr (Or.inr (Or.inr h1))))
+  · by_cases hl : (c, i) ∈ ms.lostRecs
+    · exact Or.inr (Or.inr (Or.inr (Or.inr (Or.inr ⟨hn, hl⟩))))
+    · rcases h.k4 _ hn with h1 | h1 | h1 | h1
+      · have hb : ms.bounce ≠ none := fun hb => by have := h.k5 hb; rw [this] at h1; simp at h1
+        have hbs : ms.bounce.isSome = true := by
+          cases hbb : ms.bounce with
+          | none => exact absurd hbb hb
+          | some _ => rfl
+        have hi := h.k6 ht (Or.inr (Or.inr hbs))
+        exact Or.inr (Or.inr (Or.inl ⟨hn, h1, hl, hbs, hi, h.m1 (Or.inr hi)⟩))
+      · exact Or.inr (Or.inr (Or.inr (Or.inl ⟨hn, h1, hl⟩)))
+      · exact Or.inr (Or.inr (Or.inr (Or.inr (Or.inl ⟨hn, h1⟩))))
+      · exact absurd h1 hl
 
 /-- **Every accepted recipient is accounted for, in every reachable state** (any history of
 reports, signals, failing calls, crashes and restarts): while `todo/<m>` exists it holds exactly the
 accepted envelope; afterwards the accepted recipients are exactly the records placed in the channel
 files (routed by `rewrite()`, in order), and every one of them is still queued, or was reported
-delivered, or is named in a bounce that is pending or was queued — or falls under one of the two
-documented exemptions. -/
+delivered, or is named in a bounce that is pending or was queued — or *its own* bounce paragraph falls
+under one of the two documented exemptions.  (Inductive consequence of the invariant `MInv`.)
+
+This replaces the earlier statement, whose exemptions `discarded = true ∨ lost = true` were message-wide
+flags: once set they accounted for every record of the message, attempted or not. -/
 theorem C03_accounted (cfg : Cfg) (s : St) (hr : Reach cfg s) (m : Nat) (sender : Bytes) (rcpts : List Bytes)
     (ha : (s.msg m).accepted = some (sender, rcpts)) :
-    (s.msg m).todo = some (sender, rcpts) ∨
+    ((s.msg m).todo = some (sender, rcpts) ∧ (s.msg m).mess = true) ∨
     ((s.msg m).todo = none ∧ routedOk cfg rcpts (s.msg m).placedLoc (s.msg m).placedRem = true ∧
       ∀ c i, i < (MsgSt.placed (s.msg m) c).length → Fate (s.msg m) c i) := by
   have hm := (reach_inv cfg s hr).msgs m
@@ -77,7 +88,8 @@ theorem C03_accounted (cfg : Cfg) (s : St) (hr : Reach cfg s) (m : Nat) (sender 
   | some env =>
     left
     have := hm.a1 env ht
-    rw [ha] at this; cases this; rfl
+    rw [ha] at this; cases this
+    exact ⟨rfl, hm.m1 (Or.inl (by rw [ht]; rfl))⟩
   | none =>
     right
     refine ⟨rfl, hm.a2 ht sender rcpts ha, ?_⟩
@@ -92,28 +104,41 @@ theorem C03_accounted (cfg : Cfg) (s : St) (hr : Reach cfg s) (m : Nat) (sender 
       | true => exact fate_of_fin cfg _ hm ht c i (hm.k2 ht c rs i hc hd hi')
       | false =>
         left
-        refine ⟨rs, hc, hi', hd, hk1, hm.k6 ht ?_⟩
-        cases c
-        · left; simpa [MsgSt.chan] using congrArg Option.isSome hc
-        · right; left; simpa [MsgSt.chan] using congrArg Option.isSome hc
+        have hinfo : (s.msg m).info.isSome = true := by
+          apply hm.k6 ht
+          cases c
+          · left; simpa [MsgSt.chan] using congrArg Option.isSome hc
+          · right; left; simpa [MsgSt.chan] using congrArg Option.isSome hc
+        exact ⟨rs, hc, hi', hd, hk1, hinfo, hm.m1 (Or.inr hinfo)⟩
+
+/-- **The discard exemption exists only for double bounces**: a paragraph is ever discarded only when the *accepted*
+envelope sender of the message is `#@[]`.  (Inductive: invariants `d1`, `i1`.) -/
+theorem C03_dropped_only_doublebounce (cfg : Cfg) (s : St) (hr : Reach cfg s) (m : Nat) (sender : Bytes) (rcpts : List Bytes)
+    (ha : (s.msg m).accepted = some (sender, rcpts)) (x : Ch × Nat) (hx : x ∈ (s.msg m).droppedRecs) :
+    sender = [35, 64, 91, 93] :=
+  ((reach_inv cfg s hr).msgs m).d1 sender rcpts ha (fun h => by rw [h] at hx; simp at hx)
 
 /-- **A message leaves the queue only when everyone is accounted for**: once `info/<m>` is gone
-(after which qmail-clean removes the message file) every recipient was reported delivered or named in
-a successfully queued bounce (or the documented exemptions apply). -/
+(after which qmail-clean removes the message file) every recipient was reported delivered, or its
+paragraph was in a successfully queued bounce, or its paragraph was discarded with the bounce file of a
+`#@[]` message or was in the bounce file when a crash damaged it.  (Inductive.) -/
 theorem C03_finished (cfg : Cfg) (s : St) (hr : Reach cfg s) (m : Nat) (sender : Bytes) (rcpts : List Bytes)
     (ha : (s.msg m).accepted = some (sender, rcpts)) (ht : (s.msg m).todo = none) (hi : (s.msg m).info = none) :
     ∀ c i, i < (MsgSt.placed (s.msg m) c).length →
-      (c, i) ∈ (s.msg m).delivered ∨ (c, i) ∈ (s.msg m).bounced ∨ (s.msg m).discarded = true ∨ (s.msg m).lost = true := by
+      (c, i) ∈ (s.msg m).delivered ∨
+      ((c, i) ∈ (s.msg m).noted ∧
+        (((c, i) ∈ (s.msg m).bounced ∧ (c, i) ∉ (s.msg m).lostRecs) ∨
+         ((c, i) ∈ (s.msg m).droppedRecs ∧ sender = [35, 64, 91, 93]) ∨ (c, i) ∈ (s.msg m).lostRecs)) := by
   intro c i hlt
   rcases C03_accounted cfg s hr m sender rcpts ha with h | ⟨_, _, h⟩
-  · rw [ht] at h; cases h
-  · rcases h c i hlt with ⟨_, _, _, _, _, h1⟩ | h1 | ⟨_, _, h1⟩ | h1 | h1 | h1
+  · rw [ht] at h; cases h.1
+  · rcases h c i hlt with ⟨_, _, _, _, _, h1, _⟩ | h1 | ⟨_, _, _, _, h1, _⟩ | ⟨hn, h1, h2⟩ | ⟨hn, h1⟩ | ⟨hn, h1⟩
     · rw [hi] at h1; simp at h1
     · exact Or.inl h1
     · rw [hi] at h1; simp at h1
-    · exact Or.inr (Or.inl h1)
-    · exact Or.inr (Or.inr (Or.inl h1))
-    · exact Or.inr (Or.inr (Or.inr h1))
+    · exact Or.inr ⟨hn, Or.inl ⟨h1, h2⟩⟩
+    · exact Or.inr ⟨hn, Or.inr (Or.inl ⟨h1, C03_dropped_only_doublebounce cfg s hr m sender rcpts ha _ h1⟩)⟩
+    · exact Or.inr ⟨hn, Or.inr (Or.inr h1)⟩
 
 /-- **A completion mark is written only for a finished recipient**: whenever qmail-send writes the
 `D` byte of a record, that delivery was reported `K`, or reported `D` (or `Z` past the queue lifetime)
@@ -137,20 +162,82 @@ theorem C03_flip (cfg : Cfg) (s s' : St) (hr : Reach cfg s) (m : Nat) (c : Ch) (
           exact ⟨rs, idx, hch, hidx, (hinv.msgs m).k3 _ (hinv.may m c idx (by simpa using hmm))⟩
         · cases h
 
+/-- the outstanding delivery a report `rep` read on channel `c` refers to (its first byte is the delivery number) -/
+def slotOf (s : St) (c : Ch) (rep : Bytes) : Option Slot :=
+  s.slots.find? (fun x => x.c == c && x.delnum == (rep.headD 0).toNat)
+
 /-- **Only a `K` finishes a recipient at report time**: a report with any other letter — `Z`,
 mangled, or for an out-of-range or unused delivery number — changes no message state and grants no
-permission to mark (a `D` merely schedules the bounce paragraph that must precede the mark). -/
+permission to mark; and unless it is a `D`, or a `Z` for a message past its queue lifetime, it schedules
+no bounce paragraph either (`notes` is the list of paragraphs that may be appended: `C03_paragraph_needs_report`).
+(About the report reader `handleReport` itself, for every state — not a guard.) -/
 theorem C03_report_other (cfg : Cfg) (s : St) (c : Ch) (rep : Bytes) (h : rep.getD 1 0 ≠ 75) :
-    (handleReport cfg s c rep).tab = s.tab ∧ (handleReport cfg s c rep).mayMark = s.mayMark := by
+    (handleReport cfg s c rep).tab = s.tab ∧ (handleReport cfg s c rep).mayMark = s.mayMark ∧
+    ((rep.getD 1 0 ≠ 68 ∧
+      (rep.getD 1 0 = 90 → ∀ sl, slotOf s c rep = some sl → ¬ s.clock > (s.msg sl.m).birth + cfg.lifetime)) →
+     (handleReport cfg s c rep).notes = s.notes) := by
   simp only [handleReport]
   split
-  · exact ⟨rfl, rfl⟩
-  · split
-    · exact ⟨rfl, rfl⟩
-    · repeat' split
-      all_goals first
-        | exact ⟨rfl, rfl⟩
-        | (rename_i h'; exact absurd h' h)
+  · exact ⟨rfl, rfl, fun _ => rfl⟩
+  · rename_i sl hsl
+    by_cases h0 : (rep.headD 0).toNat ≥ cfg.conc c
+    · rw [if_pos h0]; exact ⟨rfl, rfl, fun _ => rfl⟩
+    · rw [if_neg h0, if_neg h]
+      by_cases h1 : rep.getD 1 0 = 68
+      · rw [if_pos h1]; exact ⟨rfl, rfl, fun hh => absurd h1 hh.1⟩
+      · rw [if_neg h1]
+        by_cases h2 : rep.getD 1 0 = 90 ∧ s.clock > (s.msg sl.m).birth + cfg.lifetime
+        · rw [if_pos h2]; exact ⟨rfl, rfl, fun hh => absurd h2.2 (hh.2 h2.1 sl hsl)⟩
+        · rw [if_neg h2]; exact ⟨rfl, rfl, fun _ => rfl⟩
+
+/-- **Where a pending bounce paragraph comes from**: a report adds an entry to `notes` only for the outstanding delivery it
+names, and only if its letter is `D`, or `Z` while the message is past its queue lifetime — a temporary failure of a live
+message, a mangled report, a report for an unused or out-of-range delivery number never does. -/
+theorem C03_note_origin (cfg : Cfg) (s : St) (c : Ch) (rep : Bytes) (n : Note) (hn : n ∈ (handleReport cfg s c rep).notes) :
+    n ∈ s.notes ∨ ∃ sl, slotOf s c rep = some sl ∧ n = ⟨sl.m, c, sl.idx, sl.recip⟩ ∧ (rep.headD 0).toNat < cfg.conc c ∧
+      (rep.getD 1 0 = 68 ∨ (rep.getD 1 0 = 90 ∧ s.clock > (s.msg sl.m).birth + cfg.lifetime)) := by
+  simp only [handleReport] at hn
+  split at hn
+  · exact Or.inl hn
+  · rename_i sl hsl
+    by_cases h0 : (rep.headD 0).toNat ≥ cfg.conc c
+    · rw [if_pos h0] at hn; exact Or.inl hn
+    · rw [if_neg h0] at hn
+      by_cases hK : rep.getD 1 0 = 75
+      · rw [if_pos hK] at hn; exact Or.inl hn
+      · rw [if_neg hK] at hn
+        by_cases h1 : rep.getD 1 0 = 68
+        · rw [if_pos h1] at hn
+          rcases List.mem_append.1 hn with h3 | h3
+          · exact Or.inl h3
+          · right; exact ⟨sl, hsl, by simpa using h3, by omega, Or.inl h1⟩
+        · rw [if_neg h1] at hn
+          by_cases h2 : rep.getD 1 0 = 90 ∧ s.clock > (s.msg sl.m).birth + cfg.lifetime
+          · rw [if_pos h2] at hn
+            rcases List.mem_append.1 hn with h3 | h3
+            · exact Or.inl h3
+            · right; exact ⟨sl, hsl, by simpa using h3, by omega, Or.inr h2⟩
+          · rw [if_neg h2] at hn; exact Or.inl hn
+
+/-- **A bounce paragraph is appended only for a reported permanent failure**: `appendBounce` consumes an entry of `notes`
+(see `C03_note_origin`) for that message, and records exactly that record as `noted`.  (Readback of the monitor's guard;
+tied to the code by trace replay.) -/
+theorem C03_paragraph_needs_report (cfg : Cfg) (s s' : St) (m : Nat) (bs : Bytes) (h : accept cfg s (.appendBounce m bs) = some s') :
+    ∃ n ∈ s.notes, n.m = m ∧ (s'.msg m).noted = (n.c, n.idx) :: (s.msg m).noted ∧ s'.notes = s.notes.erase n ∧
+      bs.take ([60] ++ sanitizeLF n.recip ++ [62, 58, 10]).length = [60] ++ sanitizeLF n.recip ++ [62, 58, 10] := by
+  simp only [accept] at h
+  split at h
+  · cases h
+  · split at h
+    · cases h
+    · rename_i n hn
+      split at h
+      · rename_i hg
+        cases h
+        refine ⟨n, List.mem_of_find?_eq_some hn, ?_, ?_, rfl, by simpa using hg.2.2.1⟩
+        · have := List.find?_some hn; simpa using this
+        · simp only [St.msg, St.upd, tabGet_set]; simp
+      · cases h
 
 /-- **A channel file is unlinked only when everything in it is finished** (outside preprocessing):
 each of its records was reported delivered or has its bounce paragraph. -/
@@ -177,11 +264,17 @@ theorem C03_unlink (cfg : Cfg) (s s' : St) (hr : Reach cfg s) (m : Nat) (c : Ch)
           · exact (hinv.msgs m).k3 _ (by simpa using hf)
         · cases h
 
-/-- **`info/<m>` is removed last** (outside preprocessing): only when both channel files and the
-bounce record are gone. -/
-theorem C03_info_last (cfg : Cfg) (s s' : St) (m : Nat) (h : accept cfg s (.unlinkInfo m) = some s')
-    (ht : (s.msg m).todo = none) :
-    (s.msg m).loc = none ∧ (s.msg m).rem = none ∧ (s.msg m).bounce = none := by
+/-- **`info/<m>` is removed last, and only when everyone is accounted for** (outside preprocessing): both channel files
+and the bounce record are gone (guard of the monitor), and therefore — by the invariant — every recipient was reported
+delivered, or its paragraph was in a successfully queued bounce, or falls under one of the two per-record exemptions. -/
+theorem C03_info_last (cfg : Cfg) (s s' : St) (hr : Reach cfg s) (m : Nat) (sender : Bytes) (rcpts : List Bytes)
+    (ha : (s.msg m).accepted = some (sender, rcpts))
+    (h : accept cfg s (.unlinkInfo m) = some s') (ht : (s.msg m).todo = none) :
+    (s.msg m).loc = none ∧ (s.msg m).rem = none ∧ (s.msg m).bounce = none ∧
+    ∀ c i, i < (MsgSt.placed (s.msg m) c).length →
+      (c, i) ∈ (s.msg m).delivered ∨
+      ((c, i) ∈ (s.msg m).noted ∧
+        (((c, i) ∈ (s.msg m).bounced ∧ (c, i) ∉ (s.msg m).lostRecs) ∨ (c, i) ∈ (s.msg m).droppedRecs ∨ (c, i) ∈ (s.msg m).lostRecs)) := by
   simp only [accept] at h
   split at h
   · cases h
@@ -189,23 +282,87 @@ theorem C03_info_last (cfg : Cfg) (s s' : St) (m : Nat) (h : accept cfg s (.unli
     · rename_i hts; rw [ht] at hts; simp at hts
     · split at h
       · rename_i hg
-        exact ⟨by simpa using hg.1, by simpa using hg.2.1, by simpa using hg.2.2⟩
+        have hl : (s.msg m).loc = none := by simpa using hg.1
+        have hrm : (s.msg m).rem = none := by simpa using hg.2.1
+        have hb : (s.msg m).bounce = none := by simpa using hg.2.2
+        refine ⟨hl, hrm, hb, ?_⟩
+        intro c i hlt
+        rcases C03_accounted cfg s hr m sender rcpts ha with h0 | ⟨_, _, h0⟩
+        · rw [ht] at h0; cases h0.1
+        · rcases h0 c i hlt with ⟨rs, hc, _⟩ | h1 | ⟨_, _, _, h1, _⟩ | ⟨hn, h1, h2⟩ | ⟨hn, h1⟩ | ⟨hn, h1⟩
+          · cases c
+            · have : (s.msg m).loc = some rs := hc
+              rw [hl] at this; cases this
+            · have : (s.msg m).rem = some rs := hc
+              rw [hrm] at this; cases this
+          · exact Or.inl h1
+          · rw [hb] at h1; simp at h1
+          · exact Or.inr ⟨hn, Or.inl ⟨h1, h2⟩⟩
+          · exact Or.inr ⟨hn, Or.inr (Or.inl h1)⟩
+          · exact Or.inr ⟨hn, Or.inr (Or.inr h1)⟩
       · cases h
 
-/-- **The bounce record is removed only after its bounce was queued** (or, for a message whose
-sender is `#@[]`, discarded — the documented end of the chain). -/
-theorem C03_bounce_removed (cfg : Cfg) (s s' : St) (m : Nat) (h : accept cfg s (.unlinkBounce m) = some s') :
-    (s.msg m).lastInject = true ∨ ∃ info, (s.msg m).info = some info ∧ (info.drop 1).dropLast = [35, 64, 91, 93] := by
+theorem sender_of_info (sd : Bytes) : ((70 :: sd ++ [0]).drop 1).dropLast = sd := by
+  simp [dropLast_append_singleton]
+
+/-- **A bounce is queued to the accepted envelope sender**: whenever an injection succeeds, its envelope is
+`bounceEnvelope` of the sender *qmail-queue accepted the message with* (sender address, or the double-bounce address for a
+null / `-@[]` sender; never for `#@[]`), its text contains the whole current content of `bounce/<m>`, and both channel files
+are gone.  (Inductive in the link `info/<m>` = accepted sender — invariant `i1`; the rest reads back the monitor's guard.) -/
+theorem C03_bounce_to_sender (cfg : Cfg) (s s' : St) (hr : Reach cfg s) (m : Nat) (sender : Bytes) (rcpts : List Bytes)
+    (ha : (s.msg m).accepted = some (sender, rcpts)) (env body : Bytes)
+    (h : accept cfg s (.bounceInject m true env body) = some s') :
+    sender ≠ [35, 64, 91, 93] ∧ env = bounceEnvelope cfg sender ∧
+    (∃ file, (s.msg m).bounce = some file ∧ isInfix file body = true) ∧
+    (s.msg m).loc = none ∧ (s.msg m).rem = none := by
+  have hm := (reach_inv cfg s hr).msgs m
+  simp only [accept] at h
+  split at h
+  · cases h
+  · split at h
+    · rename_i info file hinfo hfile
+      split at h
+      · rename_i hg
+        have htn : (s.msg m).todo = none := by
+          cases hx : (s.msg m).todo with
+          | none => rfl
+          | some x => have := hg.1; simp [hx] at this
+        have hi := hm.i1 htn sender rcpts info ha hinfo
+        rw [hi, sender_of_info] at hg
+        have h5 := hg.2.2.2.2 trivial
+        exact ⟨hg.2.2.2.1, h5.2, ⟨file, hfile, h5.1⟩, by simpa using hg.2.1, by simpa using hg.2.2.1⟩
+      · cases h
+    · cases h
+
+/-- **The bounce record is removed only after its bounce was queued** — the last thing that happened to `bounce/<m>` was a
+successful injection (`lastInject`: reset by every append and by a crash that touched the file), sender not `#@[]` — or, for a
+message whose *accepted* sender is `#@[]`, discarded (the documented end of the chain); in both cases after both channel
+files are gone.  (Guard readback, with the sender tied to the accepted envelope by the invariant; *what* was injected last is
+C14's daemon-level theorem.) -/
+theorem C03_bounce_removed (cfg : Cfg) (s s' : St) (hr : Reach cfg s) (m : Nat) (sender : Bytes) (rcpts : List Bytes)
+    (ha : (s.msg m).accepted = some (sender, rcpts)) (h : accept cfg s (.unlinkBounce m) = some s') :
+    (((s.msg m).lastInject = true ∧ sender ≠ [35, 64, 91, 93]) ∨ sender = [35, 64, 91, 93]) ∧
+    (s.msg m).loc = none ∧ (s.msg m).rem = none := by
+  have hm := (reach_inv cfg s hr).msgs m
   simp only [accept] at h
   split at h
   · cases h
   · split at h
     · rename_i info _ hinfo _
       split at h
-      · split at h
-        · rename_i hs; exact Or.inr ⟨info, hinfo, hs⟩
-        · split at h
-          · rename_i hl; exact Or.inl hl
+      · rename_i hg
+        have htn : (s.msg m).todo = none := by
+          cases hx : (s.msg m).todo with
+          | none => rfl
+          | some x => have := hg.1; simp [hx] at this
+        have hi := hm.i1 htn sender rcpts info ha hinfo
+        rw [hi, sender_of_info] at h
+        refine ⟨?_, by simpa using hg.2.1, by simpa using hg.2.2⟩
+        split at h
+        · rename_i hs; exact Or.inr hs
+        · rename_i hs
+          split at h
+          · rename_i hl; exact Or.inl ⟨hl, hs⟩
           · cases h
       · cases h
     · cases h
